@@ -494,3 +494,13 @@ def run(ctx):
     from . import c01 as _c01_10
     if type(ctx).__name__ != 'SubCtx':
         _c01_10.run(_Sub10(ctx, 'C10.2-elements-written', 'c01', allow=('C01.2-elements-written',)))
+
+
+_run_before_cache_rules = run
+
+
+def run(ctx):
+    _run_before_cache_rules(ctx)
+    # the node of a pid, port or reference is usually an ATOM_CACHE_REF: it resolves through what earlier headers entered (C14 rules re-run)
+    from .c14 import cache_threading
+    cache_threading(ctx, 'C10.9-cache-kept')
